@@ -618,28 +618,32 @@ impl Array {
     }
 
     /// Flattens the array by summing along dimensions to match the target dimensions.
+    /// The target dimensions are aligned from the last dimension; every dimension which is missing,
+    /// or is 1 in the target, is summed over.
     fn flatten_to(self, dimensions: &[usize]) -> Array {
         if self.dimensions == dimensions {
             self
         } else {
-            let flatten_dimension_count = self.dimensions.len().saturating_sub(dimensions.len());
+            let (rank, target_rank) = (self.dimensions.len(), dimensions.len());
+            let mut values = vec![0.0; dimensions.iter().product()];
+            let mut indices = vec![0; self.dimensions.len()];
+            for value in self.values.iter() {
+                let target_index = dimensions.iter().enumerate().fold(0, |acc, (i, d)| {
+                    acc * d + if *d == 1 || i + rank < target_rank { 0 } else { indices[i + rank - target_rank] }
+                });
+                values[target_index] += value;
 
-            let op: SlicedOp = Box::new(move |output_slice, arrays| {
-                let stride = output_slice.len();
-                for (i, output) in output_slice.iter_mut().enumerate() {
-                    *output += arrays[0].iter().skip(i).step_by(stride).sum::<Float>();
+                for (x, d) in indices.iter_mut().zip(&self.dimensions).rev() {
+                    if *x == *d - 1 {
+                        *x = 0;
+                    } else {
+                        *x += 1;
+                        break;
+                    }
                 }
-            });
+            }
 
-            Array::sliced_op(
-                vec![&self],
-                &op,
-                None,
-                &self.dimensions,
-                dimensions,
-                flatten_dimension_count + 1,
-                0,
-            )
+            Array::from((dimensions.to_vec(), values))
         }
     }
 
